@@ -26,14 +26,17 @@ ATTR_KIND = {
     "x": "length", "y": "length", "width": "length", "height": "length", "cx": "length", "cy": "length", "r": "length",
     "rx": "length", "ry": "length", "x1": "length", "y1": "length", "x2": "length", "y2": "length",
     "style": "style", "patternTransform": "transform", "dx": "length", "dy": "length", "font-size": "length",
-    "preserveAspectRatio": "par", "clip-path": "clip",
+    "preserveAspectRatio": "par", "clip-path": "clip", "color": "colour",
     # names that are no SVG attributes but keys the library uses in its own value dictionaries
     "image": "odd", "text": "odd", "tag": "odd", "attributes": "odd", "apply": "odd", "center": "odd", "pathd_loaded": "odd",
     "viewport_transform": "odd", "stroke_width": "odd", "font_size": "odd", "path": "odd", "segments": "odd", "title": "odd", "desc": "odd",
 }
 # attributes any graphics or container element may carry: a fault may also *add* one of them, malformed
-ADDABLE = ["clip-path", "transform", "style", "fill", "stroke", "opacity", "stroke-width", "fill-opacity", "stroke-opacity",
+ADDABLE = ["clip-path", "transform", "style", "fill", "stroke", "color", "opacity", "stroke-width", "fill-opacity", "stroke-opacity",
            "image", "text", "tag", "attributes", "apply", "center", "pathd_loaded", "viewport_transform", "stroke_width", "font_size", "path", "segments", "title", "desc"]
+
+# keywords that are legal somewhere in CSS/SVG and rare everywhere: offered to every attribute kind
+KEYWORDS = ["inherit", "initial", "unset", "currentColor", "currentcolor", "none", "auto", "transparent", "INHERIT"]
 
 BAD = {
     "transform": ["matrix(1 2 3)", "rotate()", "rotate(abc)", "foo(1)", "translate(1", "scale(,)", "matrix(1,2,3,4,5,x)", "rotate(1e)", ")", "translate(", "matrix()", "rotate(30", "scale(2) rotate(", "translate(1,2,3) matrix(1)", "skewX()", "12", "scale(1 2 3 4)", "rotate(10,20)", "translate(--1)", "matrix(1,0,0,1,0)"],
@@ -85,7 +88,7 @@ def _paint(ch, attrs, classes):
         if ch.coin(0.6):
             decl["stroke"] = ch.choice(COLORS)
         if ch.coin(0.4):
-            decl["stroke-width"] = ch.choice(["2", "0.5", "3px", "1.5", "1mm", "2%"])
+            decl["stroke-width"] = ch.choice(["2", "0.5", "3px", "1.5", "1mm", "2%", "0"])
         if ch.coin(0.2):
             decl["fill-opacity"] = ch.choice(["0.5", "0.25", "1", "0"])
         if ch.coin(0.2):
@@ -147,6 +150,7 @@ class _Gen:
         self.max_depth = max_depth
         self.opts = opts
         self.ids = []
+        self.falsy_ids = set()
         self.classes = []
         self.clips = []
         self.n = 0
@@ -157,6 +161,13 @@ class _Gen:
         return {"tag": tag, "attrs": attrs or {}, "kids": kids or [], "text": text}
 
     def maybe_id(self, e, p=0.45):
+        if self.ch.coin(0.02):
+            # an id that is falsy as a Python value: still an id (never referenced by the generator's own uses)
+            v = self.ch.choice(["", "0"])
+            if v not in self.falsy_ids:  # ids stay unique: a duplicate would make the removal of one element re-target uses
+                self.falsy_ids.add(v)
+                e["attrs"]["id"] = v
+            return
         if self.ch.coin(p):
             i = "e%d" % (len(self.ids) + 1)
             e["attrs"]["id"] = i
@@ -648,8 +659,17 @@ def apply_faults(ch, root, n_faults, bias=None):
             base = ch.choice([c for c in COLORS if len(c) > 3 and c not in ("none", "currentColor")])
             i = ch.int(1, len(base) - 1)
             val = base[:i] + ch.choice([" ", "  ", "\t"]) + base[i:]
+        elif k not in ("path",) and ch.coin(0.12):
+            val = ch.choice(KEYWORDS)
+            if k == "style":
+                val = "%s:%s;%s:%s" % (ch.choice(["fill", "stroke", "color", "stroke-width", "fill-opacity", "font-size", "visibility"]), val, ch.choice(["stroke", "fill", "color"]), ch.choice(KEYWORDS))
         else:
             val = ch.choice(BAD[k])
+        if val.lower() == "currentcolor" and a in ("fill", "stroke", "color") and ch.coin(0.5):
+            # the keyword on both ends of its own chain, on one element
+            other = "color" if a != "color" else ch.choice(["fill", "stroke"])
+            e["attrs"][other] = "currentColor"
+            faults.append({"n": e["n"], "tag": e["tag"], "attr": other, "kind": k, "value": "currentColor"})
         e["attrs"][a] = val
         faults.append({"n": e["n"], "tag": e["tag"], "attr": a, "kind": k, "value": val})
     return faults
